@@ -108,11 +108,22 @@ N02(r) ==
 
 \* ------------------------------------------------------------------ C03
 AllBound(t, env) == VarsOf(t) \subseteq DOMAIN env
+RECURSIVE HasIf(_)
+HasIf(t) == t.k = "if" \/ \E i \in 1..Len(t.kids) : HasIf(t.kids[i])
 F03(r) ==
   {f \in {<<"C03", r.id, vi, ei, "effects">> : vi \in Idx(r.vars), ei \in Idx(r.envs)} :
      LET v == r.vars[f[3]] IN
      v.cout = "ok" /\ v.dok /\ AllBound(r.tree, r.envs[f[4]]) /\
      ~Match(v.dtree, r.envs[f[4]], v.runs[f[4]].eff, v.m.fe)}
+  \cup
+  \* the same through the other evaluation entry points: EvalBool always; TryEval with every variable
+  \* available on if-free expressions (out of an if-branch TryEval does not short-circuit: F-C04-1)
+  {f \in {<<"C03", r.id, vi, ei, sig>> : vi \in Idx(r.vars), ei \in Idx(r.envs), sig \in {"evalbool-effects", "tryeval-effects"}} :
+     LET v == r.vars[f[3]] IN
+     v.cout = "ok" /\ v.dok /\ AllBound(r.tree, r.envs[f[4]]) /\
+     LET run == v.runs[f[4]] IN
+     CASE f[5] = "evalbool-effects" -> ~IsPanic(run.bres2) /\ ~Match(v.dtree, r.envs[f[4]], run.beff, v.m.fe)
+       [] f[5] = "tryeval-effects" -> ~IsPanic(run.tres) /\ ~HasIf(v.dtree) /\ ~Match(v.dtree, r.envs[f[4]], run.teff, v.m.fe)}
 N03(r) ==
   LET okv == {vi \in Idx(r.vars) : r.vars[vi].cout = "ok" /\ r.vars[vi].dok}
       dom == {ei \in Idx(r.envs) : AllBound(r.tree, r.envs[ei])}
